@@ -118,7 +118,7 @@ def new_frames(rng, df, with_unseen):
             k = rng.randrange(len(nd))
             nd[col] = nd[col].astype(object)
             nd.loc[k, col] = "NEW_" + col
-        out.append(nd)
+        out.append(designs.scramble_index(rng, nd))
     return out
 
 
